@@ -12,6 +12,12 @@ package mr
 //@   let out = ret("recv-output", 0)
 //@   ensures [cancelled-wins] calls(Load) == 1 && ret(Load) != nil ==> result1 == ret(Load) && result0 == nil
 //@   ensures [value-or-no-output] calls(Load) == 1 && ret(Load) == nil ==> (result1 == nil || result1 == ErrReduceNoOutput) && (result1 == ErrReduceNoOutput ==> result0 == nil)
+// what decides between "the reducer's value" and "no output" is whether `output` delivered a value or was closed
+// (a delivered nil is still the reducer's output)
+//@   let got = ret(on("recv", local(output)), 0)
+//@   let gotOk = ret(on("recv", local(output)), 1)
+//@   ensures [delivered-value-returned-even-if-nil] calls(Load) == 1 && ret(Load) == nil && gotOk ==> result1 == nil && result0 == got
+//@   ensures [closed-without-value-is-no-output] calls(Load) == 1 && ret(Load) == nil && !gotOk ==> result1 == ErrReduceNoOutput && result0 == nil
 //@   ensures [deadline] calls(Load) == 0 ==> result1 == context.DeadlineExceeded && result0 == nil && calls(cancel, context.DeadlineExceeded) == 1
 //@   ensures [two-goroutines] calls("go mapReduceWithPanicChan$4") == 1 && calls("go executeMappers") == 1
 
